@@ -1895,6 +1895,9 @@ arguments:
 	}
 |	arguments ',' argument
 	{
+		if len($3.Args) != 0 && len($$.Keywords) != 0 {
+			yylex.(*yyLex).SyntaxError("non-keyword arg after keyword arg")
+		}
 		$$.Args = append($$.Args, $3.Args...)
 		$$.Keywords = append($$.Keywords, $3.Keywords...)
 	}
